@@ -36,6 +36,7 @@ func runC04(c *Ctx) {
 	ruleCodeWidth(c, p, "C04.codewidth")
 	ruleWhoCloses(c, p, "C04.who-closes")
 	ruleSendOnce(c, p, roles, "C04.send-once")
+	ruleWaiterWoken(c, p, roles, "C04.waiter-woken")
 	_ = cfg
 	c.R.Assumptions = append(c.R.Assumptions,
 		"errgroup cancels the shared context when a goroutine returns a non-nil error (x/sync contract)",
@@ -1105,5 +1106,106 @@ func ruleSendOnce(c *Ctx, p *core.Program, r *doRoles, rule string) {
 		}
 	}
 	c.R.Count("channel sends in receive-loop callbacks of Do", n)
+	c.R.Floor(rule, cfg, n, 1)
+}
+
+// ruleWaiterWoken (C04 / C10): whoever waits for the receive loop's hand-over is released when the loop ends.
+func ruleWaiterWoken(c *Ctx, p *core.Program, r *doRoles, rule string) {
+	c.R.Rule(rule, "every channel that the sender goroutine of Do receives from (other than ctx.Done()) and that the receive side feeds is closed by a defer of the receive goroutine itself, registered on every path on which the channel exists (non-nil): the loop can end without an error and without ever having fed the channel (EndOfStream before the header block) - the group context is not cancelled then, and a sender parked in `select { <-ctx.Done(); <-ch }` waits for ever, whatever the read timeout")
+	cfg := p.Cfg.Name
+	// channels the sender receives from
+	type chanUse struct {
+		fv *ssa.FreeVar
+		at ssa.Instruction
+	}
+	var uses []chanUse
+	for _, b := range r.Sender.Blocks {
+		for _, in := range b.Instrs {
+			var chans []ssa.Value
+			switch x := in.(type) {
+			case *ssa.Select:
+				for _, st := range x.States {
+					if st.Dir == types.RecvOnly && !isCtxDone(st.Chan) {
+						chans = append(chans, st.Chan)
+					}
+				}
+			case *ssa.UnOp:
+				if x.Op == token.ARROW && !isCtxDone(x.X) {
+					chans = append(chans, x.X)
+				}
+			}
+			for _, ch := range chans {
+				if ld, ok := ch.(*ssa.UnOp); ok && ld.Op == token.MUL {
+					if fv, ok := ld.X.(*ssa.FreeVar); ok {
+						uses = append(uses, chanUse{fv, in})
+					}
+				}
+				if fv, ok := ch.(*ssa.FreeVar); ok {
+					uses = append(uses, chanUse{fv, in})
+				}
+			}
+		}
+	}
+	n := 0
+	for _, u := range uses {
+		n++
+		key := core.FuncName(r.Sender) + "/waits-on-" + u.fv.Name()
+		// the same captured variable in the receiver
+		var rfv *ssa.FreeVar
+		for _, fv := range r.Receiver.FreeVars {
+			if fv.Name() == u.fv.Name() && types.Identical(fv.Type(), u.fv.Type()) {
+				rfv = fv
+			}
+		}
+		if rfv == nil {
+			c.R.Bad(rule, key, cfg, p.Pos(u.at.Pos()), "the sender waits on a channel the receive goroutine does not even capture: nothing releases it when the loop ends")
+			continue
+		}
+		isChanVal := func(v ssa.Value) bool {
+			if v == ssa.Value(rfv) {
+				return true
+			}
+			ld, ok := v.(*ssa.UnOp)
+			return ok && ld.Op == token.MUL && ld.X == ssa.Value(rfv)
+		}
+		isDeferClose := func(in ssa.Instruction) bool {
+			d, ok := in.(*ssa.Defer)
+			if !ok {
+				return false
+			}
+			bi, ok := d.Call.Value.(*ssa.Builtin)
+			return ok && bi.Name() == "close" && len(d.Call.Args) == 1 && isChanVal(d.Call.Args[0])
+		}
+		// paths on which the channel is nil need no close
+		nonNil := func(b *ssa.BasicBlock, i int) bool {
+			ifi, ok := b.Instrs[len(b.Instrs)-1].(*ssa.If)
+			if !ok {
+				return true
+			}
+			x, nn, ok := nilCmp(ifi.Cond)
+			if !ok || !isChanVal(x) {
+				return true
+			}
+			// nn: condition is `x != nil`; the nil side is succ 1 then
+			nilSucc := 0
+			if nn {
+				nilSucc = 1
+			}
+			return i != nilSucc
+		}
+		w := core.ReachAvoiding(core.Entry(r.Receiver), func(in ssa.Instruction) bool {
+			// the first wire read or an exit reached without the deferred close
+			if core.IsExit(in) {
+				return true
+			}
+			return core.IsCallOf(in, isClientMethod("packet"))
+		}, isDeferClose, nonNil)
+		if len(w) > 0 {
+			c.R.Bad(rule, key, cfg, p.Pos(w[0].At.Pos()), "the receive goroutine can start reading (and end) without having deferred close("+u.fv.Name()+"): a loop that ends cleanly before feeding the channel leaves the sender waiting for ever", p.TrailString(w[0])...)
+		} else {
+			c.R.Ok(rule, key, cfg, p.Pos(u.at.Pos()), "defer close("+u.fv.Name()+") is registered before the receive loop starts, wherever the channel exists")
+		}
+	}
+	c.R.Count("channels the sender of Do waits on", n)
 	c.R.Floor(rule, cfg, n, 1)
 }
